@@ -641,12 +641,14 @@ class GenEval:
                 self.loop_flags[self.loop_stack[-1]].add('conditional-' + s[0])
         s1 = None if s1 is not None and s1[0] in ('break', 'continue') else s1
         s2 = None if s2 is not None and s2[0] in ('break', 'continue') else s2
-        # a raising branch ends there: the other branch continues alone
+        # a raising branch ends there: the other branch continues alone (`if c: raise` asserts `not c`)
         if s1 is not None and s1[0] == 'raise' and (s2 is None or s2[0] != 'raise'):
             env.vars = v2
+            self.asserts.append((Not(test), tuple(self.loop_stack), tuple(self.cond_stack), st))
             return s2
         if s2 is not None and s2[0] == 'raise' and (s1 is None or s1[0] != 'raise'):
             env.vars = v1
+            self.asserts.append((test, tuple(self.loop_stack), tuple(self.cond_stack), st))
             return s1
         if s1 is not None and s2 is not None:
             if s1[0] == 'raise':
